@@ -65,12 +65,13 @@ def rule_r1_r2(ctx: Ctx) -> None:
             continue   # tree crossover: R4/R5
         cname = f.cls.name if f.cls else f.name
         if kind == "list":
-            A, B = _genes("a", 4), _genes("b", 4)
+            G = 4 if ctx.tier != "thorough" else 7
+            A, B = _genes("a", G), _genes("b", G)
             bad = und = None
             mixes = 0
-            for cut in range(0, 5):
+            for cut in range(0, G + 1):
                 try:
-                    res, envs = run_operator(ctx, f, Script([cut], []), {"self.gene_length": 4},
+                    res, envs = run_operator(ctx, f, Script([cut], []), {"self.gene_length": G},
                                              {ps[0]: _mk(gcls, list(A), "r1"), ps[1]: _mk(gcls, list(B), "r2")})
                 except Budget:
                     und = "too many interpretations"
@@ -85,8 +86,8 @@ def rule_r1_r2(ctx: Ctx) -> None:
                     n1 += 1
                     pat = []
                     for child in (c1, c2):
-                        if len(child) != 4:
-                            bad = bad or (f"cut={cut}: a child has {len(child)} genes, the parents have 4", cut)
+                        if len(child) != G:
+                            bad = bad or (f"cut={cut}: a child has {len(child)} genes, the parents have {G}", cut)
                             pat.append(None)
                             continue
                         src = "".join("A" if g == A[i] else "B" if g == B[i] else "?" for i, g in enumerate(child))
@@ -105,8 +106,8 @@ def rule_r1_r2(ctx: Ctx) -> None:
                             mixes += 1
             if not bad and not und and mixes == 0:
                 bad = ("no cut position makes a child contain genes of both parents: nothing is recombined", None)
-            ctx.ob("C06.R1", f, f.node, f"{cname}.crossover: each child is parental genes at their own loci, one-point, complementary (cuts 0..4)",
-                   False if bad else (None if und else True), bad[0] if bad else (und or ""), witness={"cut": bad[1]} if bad else {"cuts": 5})
+            ctx.ob("C06.R1", f, f.node, f"{cname}.crossover: each child is parental genes at their own loci, one-point, complementary (every cut position)",
+                   False if bad else (None if und else True), bad[0] if bad else (und or ""), witness={"cut": bad[1]} if bad else {"cuts": G + 1, "genes": G})
         else:
             P1 = {"K1": _genes("a", 2), "K2": _genes("a", 1, 3)}
             P2 = {"K1": _genes("b", 2), "K2": _genes("b", 1, 3)}
